@@ -53,6 +53,10 @@ func (e *engine) posStr(p token.Pos) string {
 func (e *engine) structuralObligations(prop string) []*oblig {
 	var out []*oblig
 	switch prop {
+	case "C05", "C06", "C07", "C08", "C10", "C11", "C12", "C13", "C14", "C15", "C16", "C03", "C04":
+		out = append(out, e.neverClosedObligations([]string{prop})...)
+	}
+	switch prop {
 	case "C17", "C18", "C19":
 		out = append(out, e.immutabilityObligations([]string{"C17", "C18", "C19"})...)
 	}
@@ -156,6 +160,66 @@ func (e *engine) immutabilityObligations(props []string) []*oblig {
 			clause = "no map update or delete goes through a value read from this frozen field / of this frozen type"
 		}
 		out = append(out, e.structOblig(k, props, len(bad[k]) == 0, clause, strings.Join(bad[k], "\n"), token.NoPos))
+	}
+	return out
+}
+
+// neverClosedObligations: a channel field declared neverclosed is not the operand of any close() in /repo.
+func (e *engine) neverClosedObligations(props []string) []*oblig {
+	bad := map[string][]string{}
+	for k := range e.db.neverClosed {
+		bad[k] = nil
+	}
+	var src func(v ssa.Value, depth int) string
+	src = func(v ssa.Value, depth int) string {
+		if depth > 6 {
+			return ""
+		}
+		switch x := v.(type) {
+		case *ssa.UnOp:
+			if x.Op == token.MUL {
+				if fa, ok := x.X.(*ssa.FieldAddr); ok {
+					stt := fa.X.Type().Underlying().(*types.Pointer).Elem()
+					return typeName(stt) + "." + stt.Underlying().(*types.Struct).Field(fa.Field).Name()
+				}
+				return src(x.X, depth+1)
+			}
+		case *ssa.ChangeType:
+			return src(x.X, depth+1)
+		case *ssa.MakeInterface:
+			return src(x.X, depth+1)
+		}
+		return ""
+	}
+	for _, fn := range e.allRepoFuncs() {
+		for _, b := range fn.Blocks {
+			for _, ins := range b.Instrs {
+				var c *ssa.CallCommon
+				switch i := ins.(type) {
+				case *ssa.Call:
+					c = &i.Call
+				case *ssa.Defer:
+					c = &i.Call
+				}
+				if c == nil {
+					continue
+				}
+				if bi, ok := c.Value.(*ssa.Builtin); ok && bi.Name() == "close" {
+					if k := src(c.Args[0], 0); e.db.neverClosed[k] {
+						bad[k] = append(bad[k], fmt.Sprintf("%s closes it at %s", canonName(fn), e.posStr(ins.Pos())))
+					}
+				}
+			}
+		}
+	}
+	var keys []string
+	for k := range bad {
+		keys = append(keys, k)
+	}
+	sort.Strings(keys)
+	var out []*oblig
+	for _, k := range keys {
+		out = append(out, e.structOblig("neverclosed."+k, props, len(bad[k]) == 0, "no close() in /repo has this channel field as operand", strings.Join(bad[k], "\n"), token.NoPos))
 	}
 	return out
 }
